@@ -28,7 +28,7 @@ RULE = ("one fitted model per case (all families/profiles) x a random history of
         "distinct_nontrivial = distinct (family, history of (span, observed?) pairs) with at least two different spans.")
 ASSUMPTIONS = ["DatetimeIndex.freq of caller objects is recorded, not judged (cache-like metadata that pandas only lets agree with the values)",
                "model state is judged on what the statement names: the serialised form and the predictions (private caches are recorded, not judged)"]
-REQUIRED_REACH = {"predict.json_before_after": 25, "predict.history_vs_pristine": 25, "data.fit_fingerprint": 6, "data.predict_fingerprint": 25, "fit.model_added_disqualification": 1, "fit.model_added_disqualification_to_an_already_disqualified_baseline": 1, "data.second_fit_on_the_same_data_object": 3, "sets.usage_bearing_with_weather_gaps": 20,
+REQUIRED_REACH = {"predict.json_before_after": 25, "predict.history_vs_pristine": 25, "data.fit_fingerprint": 6, "data.predict_fingerprint": 25, "fit.model_added_disqualification": 1, "fit.model_added_disqualification_to_an_already_disqualified_baseline": 1, "data.second_fit_on_the_same_data_object": 3, "sets.usage_bearing_with_weather_gaps": 20, "predict.over_a_baseline_type_data_object": 10,
                   "ctor.caller_frame_fingerprint": 20, "alias.df_probe": 6, "alias.prediction_probe": 6,
                   "history.other_model_of_another_configuration_used_in_between": 6, "alias.view_read": 10, "data.weighted_billing_model_used": 1}
 
@@ -154,22 +154,31 @@ def run_model_case(spec, keys):
         order.append(("year", True))
     if fam.kind == "hourly":
         order = [("week", False), ("year", True), ("year", False), ("year", True)] + order     # short set first; same calendar with/without usage
+    # predict() accepts baseline-type data objects too (another year wrapped in the baseline class): the 'partial' set with usage is handed
+    # over that way, every time it occurs
+    def mk(key_, frame_):
+        if key_ == ("partial", True):
+            I.reach("predict.over_a_baseline_type_data_object")
+            return fam.baseline_data(frame_)
+        return fam.reporting_data(frame_)
+    if ("partial", True) not in order:
+        order.insert(min(1, len(order)), ("partial", True))
     # references first: the same calls on pristine copies, BEFORE any other model exists in this process
     ref_cache = {}
     for key in dict.fromkeys(order):
         try:
-            ref_cache[key] = fam.predict(copy.deepcopy(pristine), fam.reporting_data(sets[key].copy(deep=True)))
+            ref_cache[key] = fam.predict(copy.deepcopy(pristine), mk(key, sets[key].copy(deep=True)))
         except Exception:
             ref_cache[key] = None
     for step, key in enumerate(order):
         rdf = sets[key]
         rf0 = I.fp(rdf)
-        rdata = fam.reporting_data(rdf)
+        rdata = mk(key, rdf)
         I.reach("ctor.caller_frame_fingerprint")
         if I.fp(rdf) != rf0:
             add("constructor-modified-callers-frame:" + fam.kind, "%s reporting data class modified the caller's DataFrame: %s" % (fam.kind, I.fp_diff(rf0, I.fp(rdf))), entry="frame")
             sets[key] = rdf = fam.reporting_frame(rng, tz, str(rdf.index[0].date()), SPANS[key[0]], with_observed=key[1])
-            rdata = fam.reporting_data(rdf)
+            rdata = mk(key, rdf)
         rd_before = data_fp(rdata)
         if step % 3 == 1:                                           # interleave: global state perturbation
             np.random.seed(int(rng.integers(0, 2 ** 31)))
